@@ -129,6 +129,36 @@ pub fn judge(case: &Case) -> Outcome {
             }
             evals += 1;
         }
+        // further generations: every serialisation may list the identifiers in another order
+        // (they are kept in a hash map), and none of them may change a verdict
+        let generations = case.extra.get("generations").and_then(|g| g.as_u64()).unwrap_or(0);
+        let mut cur = reloaded.clone();
+        for g in 0..generations {
+            let ser_g = match guarded(|| serde_yaml::to_string(&cur)) {
+                Ok(Ok(s)) => s,
+                _ => return Outcome::Violation(format!("serialising generation {g} of {which} failed")),
+            };
+            cur = match engine::load_text(&ser_g) {
+                Load::Ok(r) => r,
+                Load::Rejected(e) => return Outcome::Violation(format!("generation {g} of {which} does not load: {e}\n{ser_g}")),
+                Load::Panicked(p) => return Outcome::Violation(format!("loading generation {g} panicked: {p}")),
+            };
+            for (i, d) in case.docs.iter().enumerate() {
+                match engine::matches(&cur, d) {
+                    Ok(b) if b == base[i] => {}
+                    Ok(b) => {
+                        return Outcome::Violation(format!(
+                            "doc #{i} {}: the rule matches={} but generation {} of serialise-and-load of {which} matches={b}\n{ser_g}",
+                            d.show(),
+                            base[i],
+                            g + 2
+                        ))
+                    }
+                    Err(p) => return Outcome::Violation(format!("matches panicked: {p}")),
+                }
+                evals += 1;
+            }
+        }
         // a second round trip is a fixed point
         let ser2 = serde_yaml::to_string(&reloaded).unwrap_or_default();
         let v2: Y = serde_yaml::from_str(&ser2).unwrap_or(Y::Null);
@@ -403,5 +433,42 @@ pub fn run(tier: &str, seed: u64) -> i32 {
         judge,
         |(_, _, variant, _, _), rep| rep.label(&format!("typed_scalar_variant_{variant}")),
     );
+    // curated rules: case twins in big or-groups and in sequences (an optimiser that drops the
+    // "duplicate" gives a rule that differs from what its serialised form loads to), and key-order
+    // twins (identifiers that are equal as YAML values but not as rules; the serialised form may
+    // list the identifiers in another order)
+    {
+        let mut curated: Vec<(String, Vec<DObj>, &'static str)> = vec![];
+        for (a, b, docs) in gen::twin_rules() {
+            curated.push((a, docs.clone(), "case_or_cast_twin_rule"));
+            curated.push((b, docs, "case_or_cast_twin_rule"));
+        }
+        for (t, docs) in gen::order_twin_rules() {
+            curated.push((t, docs, "key_order_twin_rule"));
+        }
+        let subs: Vec<Report> = par_run(|w, n| {
+            let mut sub = report.sub();
+            for (i, (text, docs, label)) in curated.iter().enumerate() {
+                if i % n != w {
+                    continue;
+                }
+                for sw in [15u8, 3] {
+                    let mut c = Case::new("c14.roundtrip");
+                    c.rules = vec![text.clone()];
+                    c.docs = docs.clone();
+                    c.switches = Some(sw);
+                    // several generations: each reload may list the identifiers in another order
+                    c.extra = serde_json::json!({"sensitive": true, "generations": 6});
+                    let out = judge(&c);
+                    sub.label(label);
+                    sub.record(&c, out);
+                }
+            }
+            sub
+        });
+        for s in subs {
+            report.merge(s);
+        }
+    }
     report.finish()
 }
